@@ -47,6 +47,9 @@ type PropConfig struct {
 	// EnsuresOnly: further functions of which only the postconditions belong to this property
 	// (C16: the arity clauses of the function implementations)
 	EnsuresOnly []string `json:"ensures_only"`
+	// AllKinds: further functions of which every obligation belongs to this property, whatever
+	// only_kinds says (C01: the visitor and Compile, whose postconditions ARE the property)
+	AllKinds []string `json:"all_kinds"`
 }
 
 type KnownFinding struct {
@@ -174,6 +177,7 @@ func checkProperty(e *engine.Engine, verif, id, tier string, seed int, loadS flo
 		lemma     bool
 		frameOnly bool
 		ensOnly   bool
+		allKinds  bool
 		rep       *engine.FuncReport
 	}
 	var jobs []*job
@@ -188,6 +192,9 @@ func checkProperty(e *engine.Engine, verif, id, tier string, seed int, loadS flo
 	}
 	for _, f := range cfg.EnsuresOnly {
 		jobs = append(jobs, &job{key: f, ensOnly: true})
+	}
+	for _, f := range cfg.AllKinds {
+		jobs = append(jobs, &job{key: f, allKinds: true})
 	}
 	for _, l := range cfg.Lemmas {
 		jobs = append(jobs, &job{key: l, lemma: true})
@@ -247,7 +254,7 @@ func checkProperty(e *engine.Engine, verif, id, tier string, seed int, loadS flo
 			ign[k] = true
 		}
 		for _, j := range jobs {
-			if j.rep == nil {
+			if j.rep == nil || j.allKinds {
 				continue
 			}
 			for _, ob := range j.rep.Obligations {
